@@ -594,6 +594,23 @@ public:
 		, mSize(arraySize)
 	{ }
 
+	~CMsgPackReadArrayScope()
+	{
+		try
+		{
+			// Skip values that was not read
+			for (; mIndex < mSize; ++mIndex)
+			{
+				mMsgPackReader->SkipValue();
+			}
+		}
+		catch (...)
+		{
+			// Destructor must not throw (would terminate the process), the error will be thrown at the end of serialization
+			GetContext().SetDeferredError(std::current_exception());
+		}
+	}
+
 	/// <summary>
 	/// Gets the current path in MsgPack.
 	/// </summary>
